@@ -27,8 +27,9 @@ CLAIMED.update({
                 text='Each of the 61 Compute bodies is a Lean term whose list semantics is executed against the Go code on generated configurations and series '
                      '(bit-for-bit agreement expected); the documented formula of each indicator is a second, independent Lean definition by position (no Skip/Shift), '
                      'evaluated on the same inputs and compared with the Go output. Theorems: generic soundness of the positional semantics (Sig.sound) and per-indicator '
-                     'alignment; formula-equality theorems exist for 47 indicators (listed in the evidence; incl. sliding-tree extrema, ring-based WMA/std, all moving-average kinds); Kama, Po, SuperTrend, Mfi, Nvi are '
-                     'covered by correspondence + formula oracle only. Known deviations (Apo, Dema, Emv, Fi, Obv, UlcerIndex, Aroon, Tsi) are recorded findings.',
+                     'alignment; formula-equality theorems for all 52 indicators whose code follows its documented formula (listed in the evidence; incl. sliding-tree extrema, ring-based WMA/std, all moving-average kinds, '
+                     'Kama, Po, SuperTrend, Mfi, Nvi), for KeltnerChannel/StochasticRsi with separately configured components, and over the integers (truncating division) for Sma, MovingSum, MovingMax, MovingMin, Donchian, '
+                     'TypicalPrice, WeightedClose, tied to the int64 instantiation of the library by the INDI/INDZ run. Known deviations (Apo, Dema, Emv, Fi, Obv, UlcerIndex, Aroon, Tsi) are recorded findings.',
                 design='§6 C01', note=NOTE_COMMON + ' The formulas in Spec/Indicators.lean are my reading of the doc comments; theorems are over the reals, rounding is bounded by a 1e-9 tolerance comparison.'),
     'C02': dict(level='proof', technique='Lean 4 proof: alignment typing of every Compute body (77 theorems, all admissible periods) + generic soundness theorem; correspondence on lengths',
                 text='For every indicator and all admissible periods Lean proves that every output is well aligned at the declared idle period; with the generic soundness theorem this '
@@ -59,10 +60,10 @@ CLAIMED.update({
                      'theorem then gives exactly n actions with idle leading Holds for n >= idle and exactly idle Holds for shorter inputs, for every input. Alligator/Smma are proved as-is to emit n+1 (known findings). '
                      'All 32 strategies are run against the model (identical action streams) and against the counting oracle for n in {0,1,w-1,w,w+1,2w+3,...}.',
                 design='§6 C05', note=NOTE_COMMON + ' Actions are encoded as numbers -1/0/1 in the model (Go Action is an int). Dema and Trima strategies: correspondence + oracle only.'),
-    'C06': dict(level='proof', technique='Lean 4 proof: den(strategy) = documented rule(den(documented indicator on documented fields)) (23 generated theorems) + rule oracle on Go outputs + correspondence',
-                text='For 23 base strategies Lean proves that the decision at position i is the documented rule applied to the C01/C02 indicator model evaluated on the documented snapshot fields at the same position. '
+    'C06': dict(level='proof', technique='Lean 4 proof: den(strategy) = documented rule(den(documented indicator on documented fields)) (34 generated + 4 hand-written theorems: all base strategies except the three recorded deviations) + rule oracle on Go outputs + correspondence',
+                text='For 29 of the 32 base strategies (all moving-average kinds of Envelope and SuperTrend; DEMA with four EMA periods; BoP and buy-and-hold without warm-up) Lean proves that the decision at position i is the documented rule applied to the C01/C02 indicator model evaluated on the documented snapshot fields at the same position. '
                      'Independently, the documented rule (Python transcription) is applied to the real indicator outputs on the documented fields and compared with the real actions on OHLCV series whose fields vary independently.',
-                design='§6 C06', note=NOTE_COMMON + ' tools/scatalog.py holds my transcription of the documented rules. Known finding: CciStrategy field wiring.'),
+                design='§6 C06', note=NOTE_COMMON + ' tools/scatalog.py holds my transcription of the documented rules. Known findings: CciStrategy field wiring, Alligator/Smma one-day lag, TripleRsi comparison direction.'),
     'C07': dict(level='proof', technique='Lean 4 proofs over arbitrary action words: pointwise vote theorems, split/inverse specs, No-Loss and Stop-Loss safety invariants (reals) + exhaustive/random differential correspondence with scripted stubs',
                 text='And/Or/Majority are proved equal to the position-wise vote over the denormalised sources with length = shortest source, for any number k>=1 of sources and any words; Split and Inverse are characterised; '
                      'No-Loss (never sells at a close not above the preceding Buy close) and Stop-Loss (sells at the first close at or below purchase*(1-pct), 0<=pct<1) are invariants proved by induction over the history. '
@@ -113,7 +114,7 @@ CLAIMED.update({
                 design='§6 C03', note=NOTE_COMMON + ' Termination for all configurations/lengths is bounded exploration, hence proof-partial. The class membership of the code is a regex source scan (no select, no len(chan), no timers/locks in the pipeline packages).'),
     'C09': dict(level='proof', technique='Model: an instance is its configuration (calls are functions of configuration and input - the Lean models of C01/C05 have no instance state); tie: reuse histories and concurrent calls on one Go instance under the race detector compared with fresh instances and the model + receiver-write source scan',
                 text='In the model a Compute/Report call is a pure function of configuration and input, so reuse is definitional; the content is the tie: every indicator and strategy instance (Compute, Report, ComputeWithOutcome; compound and decorated ones; the shared instances of AllSplitStrategies/AllAndStrategies) is called several times in sequence and concurrently with different inputs, race detector on, and each result must equal the fresh-instance result and the Lean model. '
-                     'A source scan rejects assignments to receiver fields inside Compute/Report.',
+                     'A source scan rejects assignments to receiver fields inside Compute/Report. Instances re-configured after use (exported fields assigned from a fresh donor, in place, or as a zeroed struct literal) must equal fresh instances (RECONF); reports are rendered concurrently as the first writes of a process.',
                 design='§6 C09', note=NOTE_COMMON + ' Data races are a property of Go memory accesses that the model cannot exhibit: absence of races is witnessed by the race detector on the executions run, not proved.'),
 })
 
